@@ -952,7 +952,8 @@ fn main() {
     }
 
     let n_mock = args.get_u64("n", if args.thorough() { 8 } else { 6 }) as usize;
-    let n_real = args.get_u64("nreal", if args.thorough() { 7 } else { 5 }) as usize;
+    // (real children need /proc and level-triggered epoll: not under Miri)
+    let n_real = if cfg!(miri) { 0 } else { args.get_u64("nreal", if args.thorough() { 7 } else { 5 }) as usize };
     let mut seen_sigs: std::collections::BTreeSet<String> = Default::default();
     let mut idx: u64 = 0;
     let shard = args.shard;
